@@ -71,7 +71,7 @@ def random_grammar(rng, ncat, ntags, head_left=None, density=None, max_results=3
                 res = []
                 for _ in range(rng.randint(1, max_results)):
                     h = head_left if not mixed_heads else rng.random() < 0.5
-                    res.append((rng.randrange(ncat), f'b{k}', f'<b{k}>', h))
+                    res.append((rng.randrange(ncat), f'b{k}', f'<b{k}>' if k % 5 else f'<Φ{k}>', h))      # some symbols are not ASCII (as <Φ> of the English grammar)
                     k += 1
                 if rng.random() < 0.3 and len(res) >= 2:      # same category, different label (any two positions)
                     i, j = sorted(rng.sample(range(len(res)), 2))
